@@ -1145,7 +1145,7 @@ func init() {
 	Register(Spec[c23Details]{
 		ID: "C23", Suite: "details", CoqImports: []string{"Check.C23"},
 		CoqType: "list Check.C23.sec", CoqRun: "Check.C23.run_details",
-		Quick: 300, Thorough: 6000, Parallel: 8, Timeout: 30 * time.Second,
+		Quick: 300, Thorough: 4000, Parallel: 8, Timeout: 30 * time.Second,
 		Corpus: c23DetailsCorpus, Gen: c23GenDetails,
 		Run: c23DetailsRun, Coq: c23DetailsCoq,
 	})
